@@ -557,3 +557,19 @@ Proof. apply (fold_upd_inst_proj viss). intros. apply upd_inst_viss. Qed.
 Lemma get_thread_sd_active (X : sys) v th : get_thread (X <| sd_active := v |>) th = get_thread X th.
 Proof. reflexivity. Qed.
 #[export] Hint Rewrite fold_upd_get_thread fold_upd_ordered fold_upd_viss get_thread_sd_active : sup.
+
+(* the creation stage (hardened model) is invisible to everything the C03 relation looks at *)
+Lemma get_thread_stage (X : sys) v th : get_thread (X <| stage := v |>) th = get_thread X th. Proof. reflexivity. Qed.
+Lemma insts_stage (X : sys) v : insts (X <| stage := v |>) = insts X. Proof. reflexivity. Qed.
+Lemma viss_stage (X : sys) v : viss (X <| stage := v |>) = viss X. Proof. reflexivity. Qed.
+Lemma thinst_stage (X : sys) v : thinst (X <| stage := v |>) = thinst X. Proof. reflexivity. Qed.
+Lemma threads_stage (X : sys) v : threads (X <| stage := v |>) = threads X. Proof. reflexivity. Qed.
+Lemma vis_of_stage (X : sys) v n : vis_of (X <| stage := v |>) n = vis_of X n. Proof. reflexivity. Qed.
+#[export] Hint Rewrite get_thread_stage insts_stage viss_stage thinst_stage threads_stage vis_of_stage : sup.
+Lemma get_thread_set_stage t i k (X : sys) th : get_thread (set_stage t i k X) th = get_thread X th. Proof. reflexivity. Qed.
+Lemma insts_set_stage t i k (X : sys) : insts (set_stage t i k X) = insts X. Proof. reflexivity. Qed.
+Lemma viss_set_stage t i k (X : sys) : viss (set_stage t i k X) = viss X. Proof. reflexivity. Qed.
+Lemma thinst_set_stage t i k (X : sys) : thinst (set_stage t i k X) = thinst X. Proof. reflexivity. Qed.
+Lemma threads_set_stage t i k (X : sys) : threads (set_stage t i k X) = threads X. Proof. reflexivity. Qed.
+Lemma vis_of_set_stage t i k (X : sys) n : vis_of (set_stage t i k X) n = vis_of X n. Proof. reflexivity. Qed.
+#[export] Hint Rewrite get_thread_set_stage insts_set_stage viss_set_stage thinst_set_stage threads_set_stage vis_of_set_stage : sup.
